@@ -398,6 +398,25 @@ def child(arg):
       c["key"] = mechanism_key(c)
       c["def"] = S.callee_text(c["kind"], c["sig"], 0)[0]
     return {"cases": cases, "shrink": st, "group": arg.get("group")}
+  # __new__-carrier kinds: pytype's repeat-call cache (skip_repeat_calls applies to __new__, not to
+  # __init__) hands back the instance of an earlier call with identical argument types, and the
+  # carrier attribute of that shared instance holds whatever the latest analysed call stored.
+  # That is not argument binding, so a callee never gets two calls with the same argument types
+  # (star forms are kept in preference to their plain twins).
+  dropped_twins = 0
+  for n, (kind, sig, calls) in enumerate(units):
+    if kind in S.NEW_CARRIER_KINDS:
+      seen, kept = set(), []
+      for c in sorted(calls, key=lambda c: c.get("star") is None and c.get("dstar") is None):
+        key = S.argument_types_key(c)
+        if key in seen:
+          dropped_twins += 1
+          continue
+        seen.add(key)
+        kept.append(c)
+      units[n] = (kind, sig, kept)
+  if dropped_twins:
+    _cnt(acc, "calls dropped for __new__ kinds (same argument types as another call of the callee)", dropped_twins)
   fps = set()
   cases = []
   batch, ncalls = [], 0
